@@ -94,7 +94,12 @@ class TrajTok:
         return self.count
 
     def sym_getitem(self, interp, k):
-        return ("sliced", self, k)
+        t = TrajTok(self.start, self.count, self.step, self.atoms, self.top)
+        t.parent, t.key = self, k
+        return t
+
+    parent = None
+    key = None
 
 
 class CursorFile:
@@ -148,7 +153,14 @@ def iterload_env(ctx, N, ext):
 
     def load_model(interp, args, kwargs):
         loads.append((args, kwargs))
-        return TrajTok(0, ctx.int("Lall"), kwargs.get("stride", 1), kwargs.get("atom_indices"), None)
+
+        class Loaded(TrajTok):
+            def sym_getitem(self_, interp_, k):
+                t = TrajTok.sym_getitem(self_, interp_, k)
+                ctx.ghost.setdefault("pdb_sliced", t)
+                return t
+
+        return Loaded(0, ctx.int("Lall"), kwargs.get("stride", 1), kwargs.get("atom_indices"), None)
 
     ctx.interp.call_models["mdtraj.core.trajectory.open"] = open_model
     ctx.interp.call_models["mdtraj.core.trajectory.load"] = load_model
@@ -283,21 +295,23 @@ def iterload_delegating(ctx, case):
         return
     a, kw = loads[0]
     ctx.ensure("atom_indices-reach-load", kw.get("atom_indices") is atoms)
+    # the frames delivered must be the raw frames skip, skip+stride, ...: with load(stride=sl)[a::c] the raw frames are
+    # sl*(a + j*c), so sl*a == skip and sl*c == stride must hold for all skip, stride
+    toks = [t for t in ctx.ghost.get("sliced", [])]
     ys = out.value.items if out is not None and not out.raised else []
+    sl = kw.get("stride", 1) or 1
+    first = None
     if case == "chunk=0":
-        # the single chunk must be the raw frames skip, skip+stride, ...: with load(stride=sl)[a::c] the raw frames are
-        # sl*(a + j*c), so sl*a == skip and sl*c == stride must hold for all skip, stride
-        ctx.ensure("one-chunk-yielded", len(ys) == 1 and isinstance(ys[0], tuple) and ys[0][0] == "sliced")
-        if len(ys) == 1 and isinstance(ys[0], tuple):
-            key = ys[0][2]
-            sl = kw.get("stride", 1) or 1
-            a = key.start if key.start is not None else 0
-            c = key.step if key.step is not None else 1
-            ctx.ensure("skip-counts-raw-frames", core.term(sl) * core.term(a) == core.term(skip))
-            ctx.ensure("stride-applied-once", core.term(sl) * core.term(c) == core.term(stride))
-            ctx.ensure("open-ended", key.stop is None)
+        ctx.ensure("one-chunk-yielded", len(ys) == 1 and isinstance(ys[0], TrajTok))
+        first = ys[0] if ys and isinstance(ys[0], TrajTok) else None
     else:
-        ctx.ensure("stride-reaches-load", kw.get("stride") is stride)
+        first = ctx.ghost.get("pdb_sliced")
+    key = first.key if (first is not None and first.key is not None) else slice(None)
+    a = key.start if key.start is not None else 0
+    c = key.step if key.step is not None else 1
+    ctx.ensure("skip-counts-raw-frames", core.term(sl) * core.term(a) == core.term(skip))
+    ctx.ensure("stride-applied-once", core.term(sl) * core.term(c) == core.term(stride))
+    ctx.ensure("open-ended", key.stop is None)
 
 
 # ---------------------------------------------------------------------------------------------
